@@ -120,13 +120,62 @@ Definition mclean (ss : list st) (impl : list (list (option content))) : bool :=
 
 
 # ---------------------------------------------------------------- the property, executable
+def due_flushed(case):
+    """for a process killed before its k-th op: per log, the number of records written at a stamp
+    <= T - flushPeriod, T = stamp of the last logger run before the kill.  Whatever the flush schedule, a logger
+    that flushes every flushPeriod has flushed at some F > T - flushPeriod at a logger run (records of a run are
+    written before its flush), so all those records were written before the most recent DUE flush.
+    Computed from the plan alone (no ioflo).  returns (due per log, T, crash tick, logger period)"""
+    nl = len(harness.rules_of(case))
+    if case.get("crash") is None:
+        return None
+    pl = harness.plan(case)
+    t = 0
+    events = []          # (tick, per-log count) of every control that ran
+    base = [0] * nl
+    last_t, gaps = None, []
+    for i, ops in enumerate(case["procs"]):
+        lastproc = i == len(case["procs"]) - 1
+        this = []
+        for k, op in enumerate(ops):
+            if lastproc and k >= case["crash"]:
+                break
+            if op[0] == "tick":
+                t += op[1]
+                continue
+            this.append((t, [len(x) for x in pl[i][k]["ids"]]))
+            if lastproc:
+                if last_t is not None and t > last_t:
+                    gaps.append(t - last_t)
+                last_t = t
+        if lastproc:
+            events = this
+        else:
+            for _, cnt in this:
+                base = [a + b for a, b in zip(base, cnt)]
+    if not events:
+        return None
+    T = events[-1][0]
+    due = list(base)
+    for tk, cnt in events:
+        if tk <= T - case["flushP"]:
+            due = [a + b for a, b in zip(due, cnt)]
+    return due, T, t, (min(gaps) if gaps else None)
+
+
 def spec_check(case, res, crashed):
     """the statement on the surviving files alone, for every log of the logger.  returns None | why"""
     rules = harness.rules_of(case)
+    due = due_flushed(case) if crashed else None
     for j, rule in enumerate(rules):
+        fb, how = res["spy"]["flushed"][j], "this log's most recent completed flush"
+        if due is not None and due[0][j] > fb:
+            fb = due[0][j]
+            how = ("the most recent DUE flush (stamp <= %d - flushPeriod %d ticks; logger period %s, cyclePeriod %d, "
+                   "keep %d, killed at tick %d)" % (due[1], case["flushP"], due[3], case["cycleP"], case["keep"], due[2]))
         why = spec_log(case, res["files"][j], crashed,
                        None if res["nwritten"] is None else res["nwritten"][j],
-                       res["spy"]["flushed"][j], res["spy"]["rot_at"][j])
+                       fb, res["spy"]["rot_at"][j], how)
         if why:
             return "log %d (rule %s): %s" % (j, rule, why)
     for j, size, before, renamed in res["spy"]["cycles"]:
@@ -135,7 +184,7 @@ def spec_check(case, res, crashed):
     return None
 
 
-def spec_log(case, files, crashed, n, flushed_before, rot):
+def spec_log(case, files, crashed, n, flushed_before, rot, how="this log's most recent completed flush"):
     ids = []
     for f in files:
         if f is None:
@@ -172,11 +221,11 @@ def spec_log(case, files, crashed, n, flushed_before, rot):
             if ids and ids[0] > a_max:
                 return "records before %d are gone although not rotated out (rotations at %r)" % (ids[0], rot)
             if flushed_before and flushed_before - 1 >= a_max and (not ids or ids[-1] < flushed_before - 1):
-                return ("record %d was written before this log's most recent completed flush but is not in its "
-                        "files (ids end %r)" % (flushed_before - 1, ids[-3:]))
+                return ("record %d was written before %s but is not in its files (ids end %r)" % (
+                    flushed_before - 1, how, ids[-3:]))
         elif ids and flushed_before and ids[-1] < flushed_before - 1:
-            return ("record %d was written before this log's most recent completed flush but is not in its "
-                    "files (ids end %r)" % (flushed_before - 1, ids[-3:]))
+            return ("record %d was written before %s but is not in its files (ids end %r)" % (
+                flushed_before - 1, how, ids[-3:]))
     return None
 
 
@@ -234,6 +283,19 @@ def gen_multi(rng, size=24, sparse=True):
             if op[0] != "tick":
                 op.append([rng.random() < (0.12 if sparse else 0.5) for _ in rules])
     return case
+
+
+def long_single(rng):
+    """one streak log; the logger runs every tick (period 1/8 s << flushPeriod >= 1 s); no rotation or
+    cyclePeriod > flushPeriod; run long enough that several flushes fall due; killed late"""
+    fp = rng.choice([8, 8, 12])
+    keep = rng.choice([0, 0, 1, 2])
+    ops = [["start", 1]]
+    for _ in range(rng.randint(2 * fp + 2, 3 * fp + 6)):
+        ops.append(["tick", 1])
+        ops.append(["run", rng.choice([0, 1, 1, 2])])
+    return {"keep": keep, "cycleP": rng.choice([2 * fp + 4, 4 * fp]), "fsize": 0, "flushP": fp,
+            "reuse": rng.random() < 0.5, "procs": [ops]}
 
 
 def long_multi(rng):
@@ -305,6 +367,16 @@ def run(ctx):
         ks = [k for k in range(1, len(last) + 1) if k == len(last) or last[k][0] == "tick"]
         if not ctx.thorough:
             ks = ks[-1:] + ctx.rng.sample(ks[:-1], min(7, len(ks) - 1))
+        for k in ks:
+            crash_cases.append(dict(case, crash=k))
+    # 2c. logger period < flushPeriod, keep = 0 or cyclePeriod > flushPeriod, killed later than flushPeriod after
+    #     start: only the flush timer can have put the early records on disk
+    for _ in range(ctx.n(2, 8)):
+        case = long_single(ctx.rng)
+        last = case["procs"][-1]
+        late = [k for k in range(1, len(last) + 1)
+                if (k == len(last) or last[k][0] == "tick") and sum(o[1] for o in last[:k] if o[0] == "tick") > case["flushP"]]
+        ks = late if ctx.thorough else late[-1:] + ctx.rng.sample(late[:-1], min(3, len(late) - 1))
         for k in ks:
             crash_cases.append(dict(case, crash=k))
     for _ in range(ctx.n(3, 25)):
@@ -413,7 +485,12 @@ def run(ctx):
         if not fails:
             return None
         case, res, why = min(fails, key=weight)
+        due = due_flushed(case)
         return {"case": case, "impl_files": res["files"], "flushed_per_log": res["spy"]["flushed"], "why": why,
+                "config": {"logger_period_ticks": None if not due else due[3], "flushPeriod_ticks": case["flushP"],
+                           "cyclePeriod_ticks": case["cycleP"], "keep": case["keep"],
+                           "crash_tick": None if not due else due[2], "tick_seconds": 0.125,
+                           "due_flushed_per_log": None if not due else due[0]},
                 "contradicts": "C23.Props.crash_keeps_flushed_every_log / logger_flush_flushes_every_log / "
                                "retained_contiguous"}
 
